@@ -73,10 +73,15 @@ def _renumber(x, mp):
 
 
 def _new_ids(results, canon, old_ids):
+  """Ids of trials created during the run and still stored (a reused id counts: it is a new trial)."""
   ids = set()
   for s, ts in dict(canon)['trials']:
     ids |= {dict(t)['id'] for t in ts}
-  return sorted((i for i in ids if i not in old_ids), key=int)
+  created = {n.rsplit('/', 1)[1] for n in _CREATED}
+  return sorted((i for i in ids if i not in old_ids or i in created), key=int)
+
+
+_CREATED = []
 
 
 def _apply_map(results, canon, mp):
@@ -143,9 +148,11 @@ def run_scenario(sc):
     b.restore(snap)
     sched.reset_locks(b.servicer)
     b.env.label_seq = 0
+    b.servicer.datastore.created[:] = []
     res = [None] * len(acts)
     for i in perm:
       res[i] = svc.call(b, acts[i])
+    _CREATED[:] = list(b.servicer.datastore.created)
     serial[_norm(res, b.canon(), old_ids)] = perm
   vios = []
   outcomes = {}
@@ -155,6 +162,7 @@ def run_scenario(sc):
     b.restore(snap)
     sched.reset_locks(b.servicer)
     b.env.label_seq = 0
+    b.servicer.datastore.created[:] = []
     bodies = [(lambda a=a: svc.call(b, a)) for a in acts]
     try:
       res, points, trace = sched.run_schedule(bodies, choices)
@@ -164,7 +172,7 @@ def run_scenario(sc):
     except sched.Horizon:
       stats['horizon'] += 1
       return ('HORIZON',), _points_of_failed()
-    return (res, b.canon(), trace), points
+    return (res, b.canon(), trace, list(b.servicer.datastore.created)), points
 
   last = {}
 
@@ -177,7 +185,8 @@ def run_scenario(sc):
                    'desc': '[%s] %s under schedule %s' % (sc['kind'], outcome, taken),
                    'case': dict(sc, schedule=taken)})
       return
-    res, canon, trace = outcome
+    res, canon, trace, created = outcome
+    _CREATED[:] = created
     for r in res:
       if r and r[0] == 'THREAD-EXC':
         vios.append({'sig': 'C04|thread-exception|%s' % _kinds(sc),
@@ -202,6 +211,7 @@ def run_scenario(sc):
   # determinism self-test: replay the default schedule twice
   o1, _ = execute([])
   o2, _ = execute([])
+  _CREATED[:] = []
   nondet = (o1[0] not in ('DEADLOCK', 'HORIZON')) and (_norm(o1[0], o1[1], old_ids) != _norm(o2[0], o2[1], old_ids))
   return {'scenario': sc, 'schedules': n, 'capped': capped, 'serial_outcomes': len(serial), 'outcomes': len(outcomes),
           'violations': vios[:50], 'n_violations': len(vios), 'nondeterministic': nondet, 'stats': stats}
